@@ -143,6 +143,9 @@ package mqtt
 //@ ensures C23-sent-for-the-clients-protocol-version: r0 == nil && cl.Net.Conn != nil ==> cl.sentpk[old(cl.nsent)].ProtocolVersion == old(cl.Properties.ProtocolVersion)
 //@ ensures C23-problem-information-only-if-allowed: r0 == nil && cl.Net.Conn != nil && old(cl.Properties.Props.RequestProblemInfoFlag) && old(cl.Properties.Props.RequestProblemInfo) == 0 ==> cl.sentpk[old(cl.nsent)].Mods.DisallowProblemInfo
 //@ ensures C25-message-expiry-interval-at-most-the-time-remaining: r0 == nil && cl.Net.Conn != nil && pk.Expiry > 0 ==> int64(cl.sentpk[old(cl.nsent)].Properties.MessageExpiryInterval) <= pk.Expiry - unixOf(lastNow) || pk.Expiry - unixOf(lastNow) < 1
+// C34: a write that finds the pending-writes queue empty leaves nothing behind in the client's output buffer
+//@ ensures C34-idle-write-flushes-everything: r0 == nil && cl.Net.Conn != nil && cl.State.outbound.qcur == 0 ==> cl.Net.outbuf == nil
+//@ ensures C34-refused-write-strands-nothing: r0 != nil && r0 != ErrConnectionClosed && !ioErr(r0) && cl.State.outbound.qcur == 0 ==> cl.Net.outbuf == nil
 // every byte of an accepted packet goes out under the client's maximum packet size (asserted where the bytes leave the function)
 // verif:func mqtt.Client.WritePacket$1 inline
 //@ callsite bytes.Buffer.WriteTo C23-within-maximum-packet-size: pk.Mods.MaxSize == 0 || buf.blen - buf.rpos <= int(pk.Mods.MaxSize) || arg0 != buf
@@ -198,6 +201,7 @@ package mqtt
 // verif:func mqtt.Client.flushOutbuf
 //@ modifies cl.Net.outbuf, cl.Net.outbuf.rpos
 //@ ensures C34-flushed-or-error: err == nil ==> cl.Net.outbuf == nil
+//@ ensures err != nil ==> ioErr(err)
 
 // verif:func mqtt.Client.Stop trusted
 //@ modifies cl.stopped
@@ -532,6 +536,7 @@ package mqtt
 // verif:def nothingQueued(cl *Client) bool = cl.State.outbound.qlen == old(cl.State.outbound.qlen)
 // verif:def tableUntouched(cl *Client) bool = (forall k uint16 :: (has(ifl(cl), k) <==> old(has(ifl(cl), k))) && ifl(cl)[k] == old(ifl(cl)[k])) && len(ifl(cl)) == old(len(ifl(cl)))
 
+// verif:def isCode(e error, c int) bool = typeis(e, "packets.Code") && int(unboxas(e, "packets.Code").Code) == c
 // verif:func mqtt.Server.publishToClient modifies=all
 //@ requires validClOut(cl) && validSrv(s) && s.Options.Capabilities.MaximumQos <= 2 && pk.FixedHeader.Qos <= 2 && sub.Qos <= 2
 //@ requires !has(ifl(cl), 0) && cl.Properties.ProtocolVersion <= 5 && pk.FixedHeader.Type == Publish
@@ -546,6 +551,8 @@ package mqtt
 //@ ensures C11-send-quota-taken-per-stored-message: cl.State.Inflight.sendQuota == old(cl.State.Inflight.sendQuota) - ((len(ifl(cl)) > old(len(ifl(cl))) && old(cl.State.Inflight.sendQuota) > 0) ? 1 : 0)
 //@ ensures C03-queued-at-most-once: cl.State.outbound.qlen <= old(cl.State.outbound.qlen) + 1
 //@ ensures C24-alias-within-client-maximum: r0.Properties.TopicAlias <= cl.Properties.Props.TopicAliasMaximum || r0.Properties.TopicAlias == pk.Properties.TopicAlias
+// C34: a delivery given up for lack of room (in-flight limit, packet ids, pending-writes queue: all answered 0x97) is reported to the hooks
+//@ ensures C34-quota-drop-is-reported-to-the-hooks: isCode(r1, 151) ==> nev > old(nev)
 //@ ensures C24-topic-or-known-alias: r1 == nil && !(sub.NoLocal && pk.Origin == cl.ID) && r0.TopicName == "" && pk.TopicName != "" ==> r0.Properties.TopicAlias > 0 && old(has(cl.State.TopicAliases.Outbound.internal, pk.TopicName))
 
 // ======================================================================================
